@@ -228,6 +228,7 @@ def collect(prop, tier, seed, c, only=None):
     ncontin = [0]
     contin_log = []
     live = []
+    exer = {}
     while queue:
         conf, ctier = queue.pop(0)
         if unknown(viols):
@@ -250,6 +251,8 @@ def collect(prop, tier, seed, c, only=None):
         v, st = pipe.run_scripts(scripts, os.path.join(c.work, "replay-" + name), shards=14)
         nscripts += len(scripts)
         nevents += st["events"]
+        for k, n in st.get("exercised", {}).items():
+            exer[k] = exer.get(k, 0) + n
         mine = [x for x in v if x["tag"].startswith(prop + ":")]
         others = sorted(set(x["tag"] for x in v if not x["tag"].startswith(prop + ":")))
         for x in mine:
@@ -353,6 +356,7 @@ def collect(prop, tier, seed, c, only=None):
         "escalated_configs": escalated,
         "drift_continuations": contin_log,
         "liveness_on_the_model": live,
+        "exercised_on_the_real_code_level_t": dict(sorted(exer.items())),
         "unbounded_timer_lemma": timer_lemma(os.path.join(c.work, "model")) if prop in ("C17", "C03") else None,
         "property_tags": sorted(t for t in TAGS if t.startswith(prop + ":")),
         "level_d": None if not dres else {"fault_plans_from_tlc": rp.distinct, "daemon_scenarios": dres["scenarios"], "transactions_validated": dres["runs"],
@@ -448,7 +452,7 @@ TAGS = [
     "C07:Header", "C07:DataContent", "C07:UnsolicitedData", "C07:MetadataWrong", "C07:EofWrong", "C07:EofBeforeData", "C07:NakNotAnswered",
     "C08:NakWellFormed", "C08:DeferredQuiet", "C08:NakCoversMissing", "C08:NakAsksForHeld",
     "C10:NoPartialFile", "C10:DeliveredAfterCancel", "C10:CancelEnds", "C10:CancelReported",
-    "C13:RequestsOutsideDelivery", "C13:ResponsesDiffer",
+    "C13:RequestsOutsideDelivery", "C13:ResponsesDiffer", "C13:RequestsNotRun",
     "C17:FaultExact", "C17:HandlerAsConfigured",
     "C18:OneWay", "C18:EndsOnEof", "C18:ClosureFinished", "C18:ClosureTruthful", "C18:ClosureSenderWaits",
     "C18:ClosureReported", "C18:IncompleteNotComplete",
